@@ -54,6 +54,15 @@ def base_spec(delay_kind):
     return ModelSpec('m', {'li': op}, nodes, edges)
 
 
+POP_KINDS = {'mdiscrete': 'delay', 'mspread': 'spread', 'mdiscrete+mspread': 'delay+spread', 'mspread+mdiscrete': 'spread+delay'}
+
+
+def _pop_model(delay_kind):
+    """population model whose Connectivity objects carry the delays (ring buffer / gamma kernel, in either order)"""
+    from . import c16
+    return c16.make_model(POP_KINDS[delay_kind], 1)
+
+
 def _supported(backend):
     from pyrates.backend.base.base_backend import BaseBackend
     from pyrates.backend.torch.torch_backend import TorchBackend
@@ -86,8 +95,14 @@ def cell_job(job):
         # cell runs past the tool chain and the guards (and the numbers) are actually exercised
         from .. import f2pystub
         f2pystub.install()
-    spec = base_spec(job['delay'])
-    ct = build_python(spec)
+    if job['delay'] in POP_KINDS:
+        from . import c16
+        ct = c16.build_population(_pop_model(job['delay']))
+        out_var = 'a/li/x'
+    else:
+        spec = base_spec(job['delay'])
+        ct = build_python(spec)
+        out_var = 'n0/li/x'
     wd = tv.scratch_dir()
     old = os.getcwd()
     os.chdir(wd)
@@ -105,7 +120,7 @@ def cell_job(job):
                     out['outcome'] = 'returns'
                 else:
                     df = ct.run(simulation_time=1.0, step_size=0.1, solver=job['solver'], backend=job['backend'],
-                                vectorize=job['vectorize'], outputs={'o': 'n0/li/x'}, verbose=False,
+                                vectorize=job['vectorize'], outputs={'o': out_var}, verbose=False,
                                 float_precision='float64', in_place=False)
                     vals = np.asarray(df.values, dtype=float)
                     out['outcome'] = 'returns'
@@ -190,7 +205,18 @@ def malformed_job(job):
                 elif kind == 'reserved':
                     o = mk_op(eqs=(f"x' = (u - x)/tau + {job['name']}",),
                               variables={'x': 'output(0.5)', 'u': 'input(0.0)', 'tau': 2.0, job['name']: 1.0})
-                    circuit(ops=o).run(outputs={'o': pre + 'n0/li/x'}, **run_kw)
+                    route = job.get('route', 'default')
+                    if route == 'node':           # the value comes from the node template's operator overrides
+                        circuit(ops=o, node_ops={o: {job['name']: 3.0}}).run(outputs={'o': pre + 'n0/li/x'}, **run_kw)
+                    elif route == 'update_var':
+                        c = circuit(ops=o)
+                        c.update_var(node_vars={pre + 'n0/li/' + job['name']: 3.0})
+                        c.run(outputs={'o': pre + 'n0/li/x'}, **run_kw)
+                    elif route == 'node_values':
+                        circuit(ops=o).run(outputs={'o': pre + 'n0/li/x'}, node_values={pre + 'n0/li/' + job['name']: 3.0},
+                                           **run_kw)
+                    else:
+                        circuit(ops=o).run(outputs={'o': pre + 'n0/li/x'}, **run_kw)
                 elif kind == 'two_outputs':
                     o = mk_op(eqs=("x' = (u - x)/tau", "z' = -z"),
                               variables={'x': 'output(0.5)', 'z': 'output(0.1)', 'u': 'input(0.0)', 'tau': 2.0})
@@ -262,6 +288,11 @@ def malformed_jobs(tier):
         J.append(dict(kind='undeclared', vectorize=vec, must='raise', key=f"undeclared-variable:vec={vec}"))
         for name in ('y', 'dy', 'pi', 'E', 'beta', 'exp', 'x_buffer', 'a_idx', 'source_idx'):
             J.append(dict(kind='reserved', vectorize=vec, name=name, must='raise', key=f"reserved:{name}:vec={vec}"))
+            # the same declaration with a value for that variable supplied from outside the operator
+            for route in ('node', 'update_var', 'node_values'):
+                if tier == 'thorough' or name in ('E', 'pi', 'source_idx', 'x_buffer', 'y'):
+                    J.append(dict(kind='reserved', vectorize=vec, name=name, must='raise', route=route,
+                                  key=f"reserved:{name}:value-from-{route}:vec={vec}"))
         J.append(dict(kind='two_outputs', vectorize=vec, must='raise', key=f"two-outputs:vec={vec}"))
         J.append(dict(kind='cycle', vectorize=vec, must='raise', key=f"cyclic-node:vec={vec}"))
         J.append(dict(kind='edge_op_values', vectorize=vec, must='raise', key=f"node-value-unknown-operator:vec={vec}"))
@@ -295,6 +326,10 @@ def run(tier='quick', seed=0, only=None, verbose=False):
             for v in (True, False):
                 for d in DELAYS:
                     cells.append(dict(key=f"cell:{b}:{s}:vec={v}:{d}", backend=b, solver=s, vectorize=v, delay=d))
+            # delays carried by Connectivity objects between populations (always vectorized)
+            if b != 'fortran':
+                for d in POP_KINDS:
+                    cells.append(dict(key=f"cell:{b}:{s}:vec=True:{d}", backend=b, solver=s, vectorize=True, delay=d))
         for sp in (False, True):
             for v in (True, False):
                 for d in ('none', 'past'):
@@ -318,7 +353,7 @@ def run(tier='quick', seed=0, only=None, verbose=False):
         elif exp == 'raises' and r['outcome'] == 'returns':
             rec = dict(property='C20', key=job['key'], kind='unsupported-not-refused',
                        what=f"{job['key']}: unsupported combination does not raise (outcome {r['outcome']}: {r['detail']})")
-            rep.violation(rec, findings.attribute('C20', dict(job, spec=base_spec(job['delay'])), rec))
+            rep.violation(rec, findings.attribute('C20', dict(job, spec=base_spec(job['delay'] if job['delay'] not in POP_KINDS else 'none')), rec))
         else:
             n_ok += 1
             if exp == 'returns' and r['outcome'] == 'raises':
